@@ -62,6 +62,18 @@ def cases(draw):
         else:
             t, _ = draw(gen.share(t))
             origin = origin.split(':')[0] + '+alias'
+    elif c == 10 and draw(st.integers(0, 3)) == 0:
+        # a key given twice where the automatic recogniser cannot see it (custom
+        # recogniser, or two spellings that savorize makes collide): the second
+        # occurrence holds a near-miss value
+        from yv.props import c04
+        r = c04.duplicate_tagged(draw, spec, subs=[T.S('true'), T.S('false'), T.Q([T.S('true')]),
+                                                   T.M([('k', T.S('true'))]), T.S('1.5')])
+        if r is not None:
+            return {'model': r[0], 'text': T.render_flow(r[1]), 'src': 'value+duplicate_near_miss'}
+        t2 = merge_optional(draw, spec)
+        if t2 is not None:
+            t, origin = t2, 'value+merge_optional'
     elif c == 10:
         t2 = merge_optional(draw, spec)
         if t2 is not None:
@@ -191,7 +203,7 @@ def check(case, ctx):
 
 
 def phases(tier):
-    n = 320 if tier != 'thorough' else 4000
+    n = 560 if tier != 'thorough' else 6000
     ph = [HypPhase('models_x_documents', cases(), n)]
     if tier == 'thorough':
         from yv import fuzzphase
